@@ -384,6 +384,12 @@ func runC12(c *kit.Ctx) {
 			}
 			rb, rf, ok1 := fieldOf(qb[0].Common().Value)
 			ab, af, ok2 := fieldOf(qb[0].Common().Args[1])
+			// cAndRs[i].client.QueueBatch(ctx, cAndRs[i].rpcs): two address computations of the same element
+			if ia1, isIa := rb.(*ssa.IndexAddr); isIa && ok1 && ok2 {
+				if ia2, isIa := ab.(*ssa.IndexAddr); isIa && (kit.Root(ia1.X) == kit.Root(ia2.X) || sameLocalLoad(ia1.X, ia2.X)) && kit.Root(ia1.Index) == kit.Root(ia2.Index) {
+					ab = rb
+				}
+			}
 			if ok1 && ok2 && rb == ab && rf != af {
 				// rb: an element of the pair list (load of &list[i], or the address itself)
 				var list ssa.Value
@@ -523,4 +529,27 @@ func runC12(c *kit.Ctx) {
 		embed(c, "R5", "the cache a batch is routed by never holds two regions for one key (the rules of C08, run as one rule here)", 10, runC08)
 		embed(c, "R6", "a call that was not executed is reported with an error of its own, never as a success (the outcome rules of C07, run as one rule here)", 20, runC07)
 	}
+}
+
+// sameLocalLoad: a and b are loads of one local variable in one block with no store or call between them.
+func sameLocalLoad(a, b ssa.Value) bool {
+	la, ok1 := a.(*ssa.UnOp)
+	lb, ok2 := b.(*ssa.UnOp)
+	if !ok1 || !ok2 || la.Op != token.MUL || lb.Op != token.MUL || la.X != lb.X || la.Block() != lb.Block() {
+		return false
+	}
+	if _, isLocal := la.X.(*ssa.Alloc); !isLocal {
+		return false
+	}
+	i, j := kit.InstrIndex(la), kit.InstrIndex(lb)
+	if i > j {
+		i, j = j, i
+	}
+	for k := i + 1; k < j; k++ {
+		switch la.Block().Instrs[k].(type) {
+		case *ssa.Store, ssa.CallInstruction:
+			return false
+		}
+	}
+	return true
 }
